@@ -191,7 +191,8 @@ def finish(prop, tier, seed, m, errors, t0, level=LEVEL, assumptions=None, repla
             matched[kind] = cnt
         else:
             new_viol[kind] = cnt
-    rdir = os.path.join(VERIF, "replays", prop)
+    mutant = bool(os.environ.get("VERIF_MUTANT"))
+    rdir = os.path.join(BUILD, "mutant_replays", prop) if mutant else os.path.join(VERIF, "replays", prop)
     lines = []
     if new_viol:
         os.makedirs(rdir, exist_ok=True)
@@ -229,8 +230,9 @@ def finish(prop, tier, seed, m, errors, t0, level=LEVEL, assumptions=None, repla
     if harness_broken:
         ev["coverage"]["harness_errors"] = (errors + m["harness_errors"])[:10]
     if not replaying:
-        os.makedirs(os.path.join(VERIF, "evidence"), exist_ok=True)
-        json.dump(ev, open(os.path.join(VERIF, "evidence", prop + ".json"), "w"), indent=1, sort_keys=True)
+        edir = os.path.join(BUILD, "mutant_evidence") if mutant else os.path.join(VERIF, "evidence")
+        os.makedirs(edir, exist_ok=True)
+        json.dump(ev, open(os.path.join(edir, prop + ".json"), "w"), indent=1, sort_keys=True)
     for l in lines:
         print(l)
     print("%s %s: states=%d transitions=%d executions=%d evaluations=%d nontrivial=%d outcomes=%d exhaustive=%s wall=%.1fs" % (
@@ -243,6 +245,27 @@ def finish(prop, tier, seed, m, errors, t0, level=LEVEL, assumptions=None, repla
     return 1 if new_viol else 0
 
 
+def mutant_overlay(mutant_path):
+    """Deliberate property-breaking edit applied through the overlay (never to /repo):
+    {"file": repo-relative, "old": text, "new": text} or {"edits": [ {file, old, new}, ... ]}."""
+    spec = json.load(open(mutant_path))
+    edits = spec.get("edits") or [spec]
+    texts = {}
+    for e in edits:
+        f = e["file"]
+        text = texts.get(f) or open(os.path.join(REPO, f)).read()
+        if e["old"] not in text:
+            raise SystemExit("mutant %s: anchor not found in %s" % (mutant_path, f))
+        texts[f] = text.replace(e["old"], e["new"], 1)
+    repl = {}
+    os.makedirs(BUILD, exist_ok=True)
+    for i, (f, text) in enumerate(texts.items()):
+        gen = os.path.join(BUILD, "mutant_%d_%s" % (i, os.path.basename(f)))
+        open(gen, "w").write(text)
+        repl[f] = gen
+    return make_overlay(extra_replace=repl, tag=".mutant")
+
+
 def check(prop, tier, replay=None):
     t0 = time.time()
     engine, nshards, dq, dt = PROPS[prop]
@@ -250,7 +273,10 @@ def check(prop, tier, replay=None):
     deadline = dq if tier == "quick" else dt
     if os.environ.get("VERIF_DEADLINE_S"):
         deadline = float(os.environ["VERIF_DEADLINE_S"])
-    binary = build(engine)
+    if os.environ.get("VERIF_MUTANT"):
+        binary = build(engine, overlay=mutant_overlay(os.environ["VERIF_MUTANT"]), out=os.path.join(BUILD, engine + ".mutant.test"))
+    else:
+        binary = build(engine)
     reports, errors = run_shards(binary, prop, tier, nshards, deadline, seed, replay=replay)
     m = merge(reports)
     return finish(prop, tier, seed, m, errors, t0, replaying=bool(replay))
